@@ -35,6 +35,18 @@ func roundTripVia(s *smf.SMF, m gen.Model, viaFile bool) string {
 		defer os.RemoveAll(dir)
 		path := filepath.Join(dir, "roundtrip.mid")
 		if p := ev.TryTimeout(ev.Watchdog, func() {
+			// the path held the same value with another time division a moment ago (a file of the
+			// same size), which was read from there as well
+			final := s.TimeFormat
+			if mt, ok := final.(smf.MetricTicks); ok {
+				s.TimeFormat = smf.MetricTicks(uint16(mt)%32767 + 1)
+			} else {
+				s.TimeFormat = smf.MetricTicks(77)
+			}
+			if s.WriteFile(path) == nil {
+				smf.ReadFile(path)
+			}
+			s.TimeFormat = final
 			if werr = s.WriteFile(path); werr == nil {
 				back, rerr = smf.ReadFile(path)
 			}
@@ -106,7 +118,7 @@ func run(c gen.APICase) (res ev.Result) {
 }
 
 var histories = ev.NewCheck("C01", "api-histories",
-	"rapid: histories of New/NewSMF1/NewSMF2, TimeFormat (metric 1..32767, four SMPTE rates), NoRunningStatus, 1..6 tracks built by 0..10 Track.Add calls (0..3 messages per call; one track in 120 by 1000..5000 calls with small deltas: long running-status runs, bodies beyond 16 and 64 KiB), Track.Close early/late/omitted, SMF.Add; one history in four is written in between (also read back and continued), one in six after a failing write, one in six after a complete write, in half of these the TimeFormat field holds another division until the last write; messages from the public constructors (channel, all meta constructors, MetaUndefined, sysex F0..F7 / F0 without F7 / F7 escape, payloads up to 70000 bytes), deltas over uint32 biased to VLQ boundaries; oracle = pure model of the API compared with ReadFrom(WriteTo(v)) (every 8th case with ReadFile(WriteFile(v)) on a temporary file): format, division, track count, every (delta, bytes) incl. end-of-track; non-trivial = a track with >=2 events plus one of {running-status run, payload>=128, delta>=128, SMPTE, early close, >=2 tracks}; distinct by case hash",
+	"rapid: histories of New/NewSMF1/NewSMF2, TimeFormat (metric 1..32767, four SMPTE rates), NoRunningStatus, 1..6 tracks built by 0..10 Track.Add calls (0..3 messages per call; one track in 120 by 1000..5000 calls with small deltas: long running-status runs, bodies beyond 16 and 64 KiB), Track.Close early/late/omitted, SMF.Add; one history in four is written in between (also read back and continued), one in six after a failing write, one in six after a complete write, in half of these the TimeFormat field holds another division until the last write; messages from the public constructors (channel, all meta constructors, MetaUndefined, sysex F0..F7 / F0 without F7 / F7 escape, payloads up to 70000 bytes), deltas over uint32 biased to VLQ boundaries; oracle = pure model of the API compared with ReadFrom(WriteTo(v)) (every 8th case with ReadFile(WriteFile(v)) on a temporary file that held the same value with another division a moment ago): format, division, track count, every (delta, bytes) incl. end-of-track; non-trivial = a track with >=2 events plus one of {running-status run, payload>=128, delta>=128, SMPTE, early close, >=2 tracks}; distinct by case hash",
 	func(t *rapid.T) gen.APICase {
 		return gen.API(t, gen.APIOpts{MaxTracks: 6, MaxOps: 10, MaxPayload: 70000, MaxDelta: 0xFFFFFFFF, LongTracks: 120})
 	}, run)
